@@ -68,56 +68,16 @@ def canonical(g, root=None):
 
 
 def unify(ga, gb):
-    """reference unification of two graphs -> new Graph (the glb) or raises Clash"""
+    """reference unification of two separate graphs -> new Graph (the glb) or raises Clash / TypeClash"""
     g = Graph()
     mapping = {}
     for tag, src in (("a", ga), ("b", gb)):
         for n, nd in src.nodes.items():
-            m = g.new(nd["atom"])
-            mapping[(tag, n)] = m
+            mapping[(tag, n)] = g.new(nd["atom"])
         for n, nd in src.nodes.items():
             for k, t in nd["feats"].items():
                 g.nodes[mapping[(tag, n)]]["feats"][k] = mapping[(tag, t)]
-    parent = {n: n for n in g.nodes}
-
-    def find(x):
-        while parent[x] != x:
-            parent[x] = parent[parent[x]]
-            x = parent[x]
-        return x
-    work = [(mapping[("a", ga.root)], mapping[("b", gb.root)])]
-    while work:
-        x, y = work.pop()
-        x, y = find(x), find(y)
-        if x == y:
-            continue
-        nx, ny = g.nodes[x], g.nodes[y]
-        if nx["atom"] is not None and ny["atom"] is not None and nx["atom"] != ny["atom"]:
-            raise Clash()
-        if (nx["atom"] is not None and ny["feats"]) or (ny["atom"] is not None and nx["feats"]):
-            raise Clash()       # atom against complex: inconsistently typed (not generated)
-        parent[y] = x
-        if nx["atom"] is None:
-            nx["atom"] = ny["atom"]
-        for k, t in ny["feats"].items():
-            if k in nx["feats"]:
-                work.append((nx["feats"][k], t))
-            else:
-                nx["feats"][k] = t
-    # rebuild with representatives
-    out = Graph()
-    new = {}
-    for n in g.nodes:
-        r = find(n)
-        if r not in new:
-            new[r] = out.new(g.nodes[r]["atom"])
-    for n in g.nodes:
-        r = find(n)
-        if r == n:
-            for k, t in g.nodes[n]["feats"].items():
-                out.nodes[new[r]]["feats"][k] = new[find(t)]
-    out.root = new[find(mapping[("a", ga.root)])]
-    return out
+    return unify_joint(g, mapping[("a", ga.root)], mapping[("b", gb.root)])
 
 
 # ---------------------------------------------------------------- FCFG grounding (DESIGN.md E.4)
@@ -169,9 +129,11 @@ def ground(prods, start, domain):
 
 
 def unify_joint(g, ra, rb):
-    """unify two roots inside one graph (operands may share nodes) -> (new Graph, root) or raises Clash"""
+    """unify two roots inside one graph (operands may share nodes) -> new Graph or raises Clash / TypeClash.
+    All merges are carried out first; an atom meeting a complex structure anywhere (TypeClash: the pair is not
+    consistently typed) is reported in preference to a conflict between two atoms (Clash)."""
     parent = {n: n for n in g.nodes}
-    atoms = {n: nd["atom"] for n, nd in g.nodes.items()}
+    atoms = {n: ({nd["atom"]} if nd["atom"] is not None else set()) for n, nd in g.nodes.items()}
     feats = {n: dict(nd["feats"]) for n, nd in g.nodes.items()}
 
     def find(x):
@@ -185,27 +147,33 @@ def unify_joint(g, ra, rb):
         x, y = find(x), find(y)
         if x == y:
             continue
-        if atoms[x] is not None and atoms[y] is not None and atoms[x] != atoms[y]:
-            raise Clash()
-        if (atoms[x] is not None and feats[y]) or (atoms[y] is not None and feats[x]):
-            raise TypeClash()
         parent[y] = x
-        if atoms[x] is None:
-            atoms[x] = atoms[y]
+        atoms[x] |= atoms[y]
         for k, t in feats[y].items():
             if k in feats[x]:
                 work.append((feats[x][k], t))
             else:
                 feats[x][k] = t
+    roots = {find(n) for n in g.nodes}
+    reach = set()
+    st = [find(ra)]
+    while st:
+        n = st.pop()
+        if n in reach:
+            continue
+        reach.add(n)
+        for t in feats[n].values():
+            st.append(find(t))
+    if any(atoms[n] and feats[n] for n in reach):
+        raise TypeClash()
+    if any(len(atoms[n]) > 1 for n in reach):
+        raise Clash()
     out = Graph()
     new = {}
-    for n in g.nodes:
-        r = find(n)
-        if r not in new:
-            new[r] = out.new(atoms[r])
-    for n in g.nodes:
-        if find(n) == n:
-            for k, t in feats[n].items():
-                out.nodes[new[n]]["feats"][k] = new[find(t)]
+    for n in roots:
+        new[n] = out.new(next(iter(atoms[n])) if len(atoms[n]) == 1 else None)
+    for n in roots:
+        for k, t in feats[n].items():
+            out.nodes[new[n]]["feats"][k] = new[find(t)]
     out.root = new[find(ra)]
     return out
